@@ -45,13 +45,28 @@ def rclass(c):
     return filegen.reader_class(c)
 
 
-def build_file(ctx, fmt, name, encoding="ascii", archive=False, name_in_header=True, seed=0):
-    pb = filegen.PassBuilder(ctx, fmt, 2, random.Random(seed))
+POD_ERA_START = {1: (1990, 100), 2: (1993, 200), 3: (2000, 322)}     # header layouts: < 1992-09-08, .. 1994-11-15, later
+
+
+def pod_era_of(fmt, mode, plat, variant):
+    """POD files come with three header layouts of different length (84 / 188 / 146 bytes), chosen by the header's start
+    time; which one a generated file has is a fixed function of the case, so that a replay rebuilds the same file"""
+    if fmt.startswith("klm"):
+        return 3
+    return (3, 2, 1, 2)[zlib.crc32(repr((fmt, mode, plat, list(variant))).encode()) % 4]
+
+
+def build_file(ctx, fmt, name, encoding="ascii", archive=False, name_in_header=True, seed=0, era=3):
+    if fmt.startswith("klm") or era == 3:
+        pb = filegen.PassBuilder(ctx, fmt, 2, random.Random(seed))
+    else:
+        y, d = POD_ERA_START[era]
+        pb = filegen.PassBuilder(ctx, fmt, 2, random.Random(seed), start_ms=filegen.ydm_to_ms(y, d, 3600000), pod_epoch=era)
     pb.archive = archive
     hb = pb.header_block()     # sets pb.dsname
     data = bytearray(pb.tobytes())
     base = (512 if fmt.startswith("klm") else 122) if archive else 0
-    off, ln = (22, 42) if fmt.startswith("klm") else (40, 44)
+    off, ln = (22, 42) if fmt.startswith("klm") else (40, 42 if era == 2 else 44)
     raw = name.encode("ascii") if encoding == "ascii" else name.encode("cp500")
     if not name_in_header:
         raw = bytes(ln)
@@ -103,12 +118,13 @@ def shuffle_history(rng):
 def check_named(ctx, fmt, mode, plat, variant, drv, rng):
     name = "NSS.%s.%s.D02187.S1904.E2058.B0921517.GC" % (mode, plat)
     enc, archive, in_header, fname_kind, container = variant
-    data = build_file(ctx, fmt, name, enc, archive, in_header, seed=1)
+    era = pod_era_of(fmt, mode, plat, variant)
+    data = build_file(ctx, fmt, name, enc, archive, in_header, seed=1, era=era)
     d = os.path.join(ctx.scratch, "c10")
     os.makedirs(d, exist_ok=True)
     fname = name if fname_kind == "name" else ("other.bin" if fname_kind == "plain" else fname_kind)
     path = os.path.join(d, fname)
-    payload = {"fmt": fmt, "mode": mode, "plat": plat, "variant": list(variant)}
+    payload = {"fmt": fmt, "mode": mode, "plat": plat, "variant": list(variant), "pod_header_era": era}
     # expected acceptors (the property's statement)
     seen_family = fmt[:3]
     want = set()
